@@ -816,7 +816,18 @@ const heavyN = 4300
 
 func padProg(p int) []byte { return burner(0, p) }
 
+// gasOf measures a transaction as a node sees it: after the wire round trip (SerializedSize, which the storage gas
+// is charged on, is the decoded byte length there; chainlib sets it to the length of the hex text when building).
 func gasOf(tx *types.Tx) int64 {
+	bs, err := tx.MarshalText()
+	if err != nil {
+		return -1
+	}
+	rt := &types.Tx{}
+	if err := rt.UnmarshalText(bs); err != nil {
+		return -1
+	}
+	tx = rt
 	gs, err := validation.ValidateTx(tx.Tx, &bc.Block{BlockHeader: &bc.BlockHeader{Version: 1, Height: 1}}, func(p []byte) ([]byte, error) { return p, nil })
 	if err != nil {
 		return -1
@@ -840,23 +851,18 @@ func tune(src cl.Out, each uint64, target int64) (m, q, p int, ok bool) {
 		if g0 < 0 || g0 > target {
 			continue
 		}
-		diff := target - g0
+		diff := int(target - g0)
 		if diff > 400 {
 			return 0, 0, 0, false
 		}
-		q = 0
-		if diff%2 == 1 {
-			if diff < 3 {
-				continue
+		// a NOP in the spent program costs about 2 (one step, one byte), a byte of output program about 1;
+		// length prefixes may add a byte here and there, so the neighbourhood is searched and every candidate measured
+		for q = 0; q <= 2; q++ {
+			for p = diff - 2*q - 3; p <= diff-2*q+1; p++ {
+				if p >= 0 && measure(m, q, p) == target {
+					return m, q, p, true
+				}
 			}
-			q, diff = 1, diff-3
-		}
-		p = int(diff / 2)
-		if p > 100 {
-			continue
-		}
-		if measure(m, q, p) == target {
-			return m, q, p, true
 		}
 	}
 	return 0, 0, 0, false
@@ -1014,7 +1020,8 @@ func describe(g *gen) []MBlock {
 				mb.Sig = k + 1
 			}
 		}
-		bcb := types.MapBlock(b)
+		// gas as the node computes it: on the block after the wire round trip (see gasOf)
+		bcb := types.MapBlock(cl.CloneBlock(b))
 		for i, tx := range b.Transactions {
 			mt := MTx{ID: txl.get(tx.ID.String()), Gas: -1, Spends: [][2]int{}, Outs: [][2]int{}}
 			if gs, err := validation.ValidateTx(bcb.Transactions[i], bcb, conv); err == nil {
